@@ -101,7 +101,7 @@ def _cases(draw, tier):
     steps = []
     nsteps = draw(st.integers(2, 40 if tier == "thorough" else 30))
     for _ in range(nsteps):
-        k = draw(st.sampled_from(["bin", "bin", "bin", "bin", "un", "un", "num", "list", "reg", "reg", "call", "call", "call", "symcall", "raise"]
+        k = draw(st.sampled_from(["bin", "bin", "bin", "bin", "un", "un", "num", "list", "reg", "reg", "call", "call", "call", "symcall", "raise", "mut"]
                                  if not big else ["bin", "bin", "bin", "bin", "un", "num", "list", "raise"]))
         if k == "bin":
             steps.append({"k": k, "op": draw(st.sampled_from(bins)), "i": draw(idx), "j": draw(idx)})
@@ -112,6 +112,14 @@ def _cases(draw, tier):
                           "num": draw(st.sampled_from(["2", "1/2", "1", "-3", "2", "1/2"])),
                           "ntype": draw(st.sampled_from(["Fraction", "int", "float", "bool", "sympy", "np.float64"])),
                           "side": draw(st.sampled_from(["l", "r"]))})
+            if draw(st.booleans()):
+                # the same number again as another number type (2 == 2.0 == Fraction(2): equal and hash-equal)
+                again = dict(steps[-1])
+                again["ntype"] = draw(st.sampled_from(["Fraction", "int", "float", "sympy", "np.float64"]))
+                steps.append(again)
+        elif k == "mut":
+            steps.append({"k": k, "op": draw(st.sampled_from(["inv", "normsq", "reverse", "sq", "sw", "gp", "pow-1", "neg"])), "i": draw(idx), "j": draw(idx),
+                          "new": [draw(st.integers(-4, 4)) for _ in range(6)], "how": draw(st.sampled_from(["setitem", "backing"]))})
         elif k == "list":
             steps.append({"k": k, "op": draw(st.sampled_from(["gp", "op", "sw", "add"] if not big else ["gp", "op", "add"])), "i": draw(idx),
                           "js": draw(st.lists(idx, min_size=1, max_size=3)), "side": draw(st.sampled_from(["l", "r"]))})
@@ -206,7 +214,7 @@ class Env:
 def _elem(x):
     if isinstance(x, (list, tuple)):
         return [_elem(v) for v in x]
-    return {k: v for k, v in kd.to_dict(x, op="history").items() if v != 0}
+    return {k: v for k, v in kd.to_dict(x, op="history").items() if hasattr(v, "shape") and getattr(v, "shape", ()) != () or v != 0}
 
 
 def _number(step):
@@ -228,7 +236,48 @@ def _number(step):
     return v
 
 
-def run_step(env: Env, step, made, fixed_slot=None):
+def _mut_apply(step, m, other):
+    op = step["op"]
+    if op == "sq":
+        return m * m
+    if op == "pow-1":
+        return m ** -1
+    if op in ("sw", "gp"):
+        return getattr(m, op)(other)
+    return getattr(m, op)()
+
+
+def _mut_step(env, step, fresh):
+    """An array-valued multivector owned by this step is used, has one column of coefficients overwritten in place (item
+    assignment, or writing to the ndarray it was built from), and is used again: the second result must be what the
+    current coefficients give.  `fresh`: built with the final coefficients and used once, on a fresh algebra."""
+    import numpy as np
+    o = env.case["pool"][step["i"]]
+    keys = list(o["keys"])
+    if not keys:
+        return None
+    a0 = np.array([[float(frac(v)), float(frac(v)) + 1.0] for v in o["vals"]])
+    new = [float(step["new"][i % 6]) + 0.5 for i in range(len(keys))]
+    final = a0.copy()
+    final[:, 0] = new
+    other = env.pool[step["j"]]
+    with np.errstate(all="ignore"):
+        if fresh:
+            return _mut_apply(step, kd.mk_raw(env.alg, keys, final), other)
+        backing = a0.copy()
+        m = kd.mk_raw(env.alg, keys, backing)
+        try:
+            _mut_apply(step, m, other)
+        except Exception:
+            pass
+        if step["how"] == "setitem" or m.values() is not backing:
+            m[0] = new
+        else:
+            backing[:, 0] = new
+        return _mut_apply(step, m, other)
+
+
+def run_step(env: Env, step, made, fixed_slot=None, fresh=False):
     """Execute one step.  Returns ('ok', element(s)) | ('exc', class name) | ('skip', None).  Appends every multivector
     the step returned to `made`."""
     k = step["k"]
@@ -264,6 +313,10 @@ def run_step(env: Env, step, made, fixed_slot=None):
             vals = {str(s): v for s, v in zip(xs.values(), x.values())}
             kwargs = {str(s): vals[str(s)] for s in sym.free_symbols}
             r = sym(**kwargs) if kwargs else sym
+        elif k == "mut":
+            r = _mut_step(env, step, fresh)
+            if r is None:
+                return "skip", None
         elif k == "raise":
             x = P[step["i"]]
             w = step["what"]
@@ -303,19 +356,43 @@ def fresh_result(case, step, shared: Env):
         for sl in chain:
             st_, _, _, dep = shared.slots[sl]
             pos[sl] = env.register(st_, callee_slot=pos.get(dep) if dep is not None else None)
-        return run_step(env, step, made, fixed_slot=pos[target])
+        return run_step(env, step, made, fixed_slot=pos[target], fresh=True)
     if step["k"] == "reg":
         return "ok", "registered"
-    return run_step(env, step, made)
+    return run_step(env, step, made, fresh=True)
 
 
 def _snapshot(m):
     return (m, tuple(m.keys()), copy.deepcopy(list(m.values())))
 
 
+def _arr_same(x, y):
+    import numpy as np
+    a_, b_ = np.asarray(x), np.asarray(y)
+    if a_.shape != b_.shape:
+        return False
+    if a_.dtype.kind in "fc" and b_.dtype.kind in "fc":
+        return bool(np.array_equal(a_, b_, equal_nan=True))
+    eq = a_ == b_
+    return bool(np.all(eq | ((a_ != a_) & (b_ != b_))))
+
+
+def _vals_same(a, b):
+    import numpy as np
+    if len(a) != len(b):
+        return False
+    for x, y in zip(a, b):
+        if hasattr(x, "shape") or hasattr(y, "shape"):
+            if not _arr_same(x, y):
+                return False
+        elif x != y and not (x != x and y != y):
+            return False
+    return True
+
+
 def _check_snapshots(snaps, after):
     for m, ks, vs in snaps:
-        if tuple(m.keys()) != ks or list(m.values()) != vs:
+        if tuple(m.keys()) != ks or not _vals_same(list(m.values()), vs):
             raise Violation("no-mutation", after.get("op", after["k"]), f"after step {after} a multivector created earlier changed: keys {ks} "
                             f"values {vs} -> keys {tuple(m.keys())} values {list(m.values())}")
 
@@ -432,6 +509,26 @@ def evaluate(case):
     return Info(nontrivial, labels, case, counters)
 
 
+def _identical(g, e):
+    """The shared and the fresh algebra run the same deterministic computation on the same operands, so the two results are
+    compared for exact equality (==; arrays element-wise with NaN == NaN), not to rounding: Fraction(1, 6) != 1/6 as float."""
+    import numpy as np
+    if set(g) != set(e):
+        return False, f"stored non-zero blades {sorted(g)} vs {sorted(e)}"
+    for k in g:
+        a, b = g[k], e[k]
+        if hasattr(a, "shape") or hasattr(b, "shape"):
+            same = _arr_same(a, b)
+        else:
+            try:
+                same = bool(a == b) or (a != a and b != b)
+            except Exception:
+                same = False
+        if not same:
+            return False, f"blade {k}: {a!r} vs {b!r} (exact comparison: same computation on both algebras)"
+    return True, ""
+
+
 def _compare(n, step, got, exp, case, threaded=False):
     how = " (threads interleaved)" if threaded else ""
     op = step.get("op") or step["k"]
@@ -450,7 +547,7 @@ def _compare(n, step, got, exp, case, threaded=False):
     if isinstance(g, list) and len(g) != len(e):
         raise Violation("history-independent", op, f"step {n} {step}{how}: {len(g)} results vs {len(e)} on a fresh algebra")
     for gg, ee in pairs:
-        ok, why = kd.elem_equal(gg, ee)
+        ok, why = _identical(gg, ee)
         if not ok:
             raise Violation("history-independent", op, f"step {n} {step}{how}: {why}; shared algebra returned {kd.show(gg)}, a fresh "
                             f"algebra returns {kd.show(ee)} (wrapper={case['wrapper']})", shared=kd.show(gg), fresh=kd.show(ee))
